@@ -1,6 +1,6 @@
 PROP = dict(
     id="C02",
-    lean_modules=["TongoProofs.C02", "TongoProofs.C02Compose"],
+    lean_modules=["TongoProofs.C02", "TongoProofs.C02Compose", "TongoProofs.C02Kat"],
     gen=["LevelMask", "CellDesc"],
     # the model of newImmutableCell is PROVED equal to the TON definition (impl_eq_spec, table_refines_tree), so its
     # answers are the specification: a mismatch on these ops is a violation with the table as failing input.
